@@ -45,7 +45,7 @@ Theorem C17_command_grammar : forall prefix topic msg,
   (forall ch on, parser_set_on FIXED prefix topic msg = Some (ch, on) <->
                  exists cmd, grammar prefix topic ch cmd /\ set_on_cmd cmd msg = Some on) /\
   (forall ch a p t, parser_rs_fb FIXED prefix topic msg = Some (ch, a, p, t) <->
-                 exists cmd, grammar prefix topic ch cmd /\ rs_cmd cmd msg = Some (a, p, t)).
+                 exists cmd, grammar prefix topic ch cmd /\ rs_cmd FIXED cmd msg = Some (a, p, t)).
 Proof. exact C17_command_grammar_thm. Qed.
 Print Assumptions C17_command_grammar.
 
@@ -91,6 +91,46 @@ Example C17_number_rendering_enumerated :
   forallb (fun p => forallb (fun r => val_ok true (18446744073709551615 - r) p) (zrange 40)) (zrange 21) = true.
 Proof. exact (conj val_small_table val_large_table). Qed.
 Print Assumptions C17_number_rendering_enumerated.
+
+(* Values of the value-carrying commands (set/closing_percentage, set/tilt, set/brightness).  Grammar, taken from
+   supla_esp_mqtt_str2int: ['-'] digit+ ['.' digit*]; the value is the integer part.  `str2int` is defined on all byte
+   strings.  Accepted => the WHOLE payload has this shape (nothing unchecked after the dot, no second dot, no sign or
+   letter anywhere else, at least one digit) and the result is the decimal value of the integer part; conversely every
+   payload of the grammar whose integer part fits an int is accepted. *)
+Theorem C17_number_grammar : forall s v, str2int FIXED s = Some v ->
+  exists neg ip ofp, number_shape s neg ip ofp /\ v = (if neg then - digits_val 0 ip else digits_val 0 ip) /\
+                     0 <= digits_val 0 ip <= 2147483647.
+Proof. exact C17_number_grammar_thm. Qed.
+Print Assumptions C17_number_grammar.
+
+Theorem C17_number_accepted : forall s neg ip ofp, number_shape s neg ip ofp -> digits_val 0 ip <= 2147483639 ->
+  str2int FIXED s = Some (if neg then - digits_val 0 ip else digits_val 0 ip).
+Proof. exact C17_number_accepted_thm. Qed.
+Print Assumptions C17_number_accepted.
+
+(* a percentage acts iff the payload has the grammar and its integer part is 0..100 (digit strings of any length) *)
+Theorem C17_percent_valid_value : forall msg p, percent FIXED msg = Some p <->
+  exists neg ip ofp, number_shape msg neg ip ofp /\ p = digits_val 0 ip /\ 0 <= p <= 100 /\ (neg = true -> p = 0).
+Proof. exact C17_percent_thm. Qed.
+Print Assumptions C17_percent_valid_value.
+
+(* the dimmer command (supla_esp_mqtt_parser_set_brightness, MQTT_DIMMER_SUPPORT) *)
+Theorem C17_brightness_grammar : forall prefix topic msg ch p, prefix <> [] -> msg <> [] ->
+  (parser_brightness FIXED prefix topic msg = Some (ch, p) <->
+   grammar prefix topic ch s_set_brightness /\ percent FIXED msg = Some p).
+Proof. exact C17_brightness_grammar_thm. Qed.
+Print Assumptions C17_brightness_grammar.
+
+Theorem C17_old_str2int_refuted :
+  parser_rs_fb OLD_DIGITS w_P (w_P ++ [47] ++ s_channels ++ [51; 47] ++ s_set_closing) [45] = Some (3, ACT_SHUT_PCT, 0, 0) /\
+  parser_rs_fb FIXED w_P (w_P ++ [47] ++ s_channels ++ [51; 47] ++ s_set_closing) [45] = None /\
+  percent OLD_DIGITS [45; 46; 53] = Some 0 /\ percent FIXED [45; 46; 53] = None /\
+  parser_brightness OLD_DIGITS w_P (w_P ++ [47] ++ s_channels ++ [51; 47] ++ s_set_brightness) [45] = Some (3, 0) /\
+  parser_brightness FIXED w_P (w_P ++ [47] ++ s_channels ++ [51; 47] ++ s_set_brightness) [45] = None /\
+  percent FIXED [53; 48; 46; 55] = Some 50 /\ percent FIXED [53; 48; 46; 120] = None /\ percent FIXED [49; 46; 50; 46; 51] = None /\
+  percent FIXED [48;48;48;48;48;48;48;48;48;48;48;48;53;48] = Some 50 /\ percent FIXED [52;50;57;52;57;54;55;51;52;54] = None.
+Proof. exact C17_old_str2int_refuted_thm. Qed.
+Print Assumptions C17_old_str2int_refuted.
 
 (* the unrepaired code *)
 Theorem C17_old_code_refuted :
